@@ -23,10 +23,10 @@ CLAIMED = {
              "key permutation; every feasible path is explored and its concrete result lists are checked against the box oracle under the path "
              "condition by the solver. Exhaustive over all box values for each (n, page size, dimension, permutation) listed.",
         note="Bounds: n<=4 rows (5 thorough), d in 1..3, every page size in 1..n+1; the Hilbert order is replaced by an arbitrary permutation "
-             "(stub). Comparison-only code, so Real results transfer to floats. Trusted: pysym, z3.",
+             "(stub) whose keys are spread over 0..2^(d p)-1, for p=10 and the largest orders whose distances fit an int64 (d=1 p=62, d=2 p=31, d=3 p=21). Comparison-only code, so Real results transfer to floats. Trusted: pysym, z3.",
         ref='5 (C03)'),
     'C07': dict(
-        text="Bit-vector (int64) symbolic execution of every function of hilbert_curve.py; round trips, ranges, adjacency, refinement, end points and "
+        text="Bit-vector (int64) symbolic execution of every function of hilbert_curve.py; round trips, ranges, adjacency, refinement, end points (both directions, concrete runs up to n*p=62) and "
              "vectorised==scalar are SMT queries over all cells/distances for the listed orders, windowed queries up to p=31.",
         note="Bounds: n=2 full width p<=10 (14 thorough) for round trip/adjacency, h->c->h p<=8 (10), refinement(c) all p<=30, refinement(d) p<=12 (16); "
              "low-10-bit windows with fixed high-bit patterns up to p=31; n=1 p<=12 (20); n=3 p<=5 (7). Trusted: pysym bit-vector model of numba int64, z3.",
